@@ -25,6 +25,13 @@ def _wrapin(x):
     return x
 
 
+def _obj_fill_like(other, v, k):
+    """*_like: numpy's default order="K" gives the new array the memory layout of the prototype"""
+    a = np.empty_like(np.asarray(other), dtype=object, order=k.get("order", "K"), subok=False)
+    a[...] = v
+    return a.view(SymArr)
+
+
 def _obj_fill(shape, v):
     a = np.empty(shape, dtype=object)
     a.fill(v)
@@ -77,13 +84,13 @@ class NpShim:
     def zeros_like(self, other, dtype=None, **k):
         if isinstance(other, np.ndarray) and other.dtype == object and dtype in (None, float, np.float64, object):
             USED.add("np.zeros_like")
-            return _obj_fill(np.shape(other), 0)
+            return _obj_fill_like(other, 0, k)
         return np.zeros_like(other, dtype=dtype, **k)
 
     def ones_like(self, other, dtype=None, **k):
         if isinstance(other, np.ndarray) and other.dtype == object and dtype in (None, float, np.float64, object):
             USED.add("np.ones_like")
-            return _obj_fill(np.shape(other), 1)
+            return _obj_fill_like(other, 1, k)
         return np.ones_like(other, dtype=dtype, **k)
 
     def empty_like(self, other, dtype=None, **k):
@@ -92,7 +99,7 @@ class NpShim:
         if dtype is not None and dtype not in (float, np.float64, object):
             return np.empty_like(other, dtype=dtype, **k)
         USED.add("np.empty_like")
-        return _obj_fill(np.shape(other), 0)
+        return _obj_fill_like(other, 0, k)
 
     def _maybe_object(self, fn, obj, dtype, k):
         """np.array / asarray(..., dtype=float) of something holding symbols keeps them (object dtype)"""
@@ -127,7 +134,7 @@ class NpShim:
     def full_like(self, other, fill_value, dtype=None, **k):
         if _has_sym(fill_value) or (isinstance(other, np.ndarray) and other.dtype == object and dtype in (None, float, np.float64, object, SymReal)):
             USED.add("np.full_like")
-            a = np.empty(np.shape(other), dtype=object)
+            a = np.empty_like(np.asarray(other), dtype=object, order=k.get("order", "K"), subok=False) if isinstance(other, np.ndarray) else np.empty(np.shape(other), dtype=object)
             a[...] = fill_value
             return a.view(SymArr)
         return np.full_like(other, fill_value, dtype=dtype, **k)
@@ -174,6 +181,27 @@ class NpShim:
                 return out
             return r
         return np.clip(a, a_min, a_max, out=out, **k)
+
+    def where(self, cond, *xy):
+        """np.where(cond, x, y) with symbolic conditions or branches: one ite term per entry (no fork)"""
+        if len(xy) == 2 and (_has_sym(cond) or _has_sym(xy[0]) or _has_sym(xy[1])):
+            USED.add("np.where (merged)")
+            c, x, y = np.broadcast_arrays(np.asarray(cond, dtype=object), np.asarray(xy[0], dtype=object), np.asarray(xy[1], dtype=object))
+            out = np.empty(c.shape, dtype=object)
+            for idx in np.ndindex(*c.shape):
+                ci = c[idx]
+                if isinstance(ci, SymBool) and (z3.is_true(ci.t) or z3.is_false(ci.t)):
+                    ci = z3.is_true(ci.t)
+                if isinstance(ci, SymBool):
+                    a, b = sym._sr(x[idx]), sym._sr(y[idx])
+                    nan = None
+                    if a.nan is not None or b.nan is not None:
+                        nan = z3.If(ci.t, a.nan if a.nan is not None else z3.BoolVal(False), b.nan if b.nan is not None else z3.BoolVal(False))
+                    out[idx] = SymReal(z3.If(ci.t, a.t, b.t), nl=a.nl or b.nl or ci.nl, nan=nan)
+                else:
+                    out[idx] = x[idx] if bool(ci) else y[idx]
+            return out.view(SymArr) if out.shape else out[()]
+        return np.where(cond, *xy)
 
     def isnan(self, a):
         a = _wrapin(a) if isinstance(a, np.ndarray) else a
@@ -365,8 +393,14 @@ def merged_max(*args, default=None, key=None):
     acc = seq[0]
     for x in seq[1:]:
         a, b = sym._sr(acc), sym._sr(x)
-        # Python: max keeps the first unless a later one is strictly greater
-        acc = SymReal(z3.If(b.t > a.t, b.t, a.t), nl=a.nl or b.nl, nan=sym._or(a.nan, b.nan))
+        # Python: max keeps the first unless a later one is strictly greater; every comparison with a NaN is False, so a
+        # NaN is kept when it is the accumulator and dropped when it is the later element (builtin max does not propagate NaN)
+        take = b.t > a.t
+        if a.nan is not None:
+            take = z3.And(z3.Not(a.nan), take)
+        if b.nan is not None:
+            take = z3.And(z3.Not(b.nan), take)
+        acc = SymReal(z3.If(take, b.t, a.t), nl=a.nl or b.nl, nan=a.nan)
     return acc
 
 
